@@ -66,16 +66,23 @@ func NewRateLimiter(permitsPerSecond int64, options ...Option) *RateLimiter {
 
 // Acquire is the core algorithm of RateLimiter.
 func (l *RateLimiter) Acquire(ctx context.Context, tokens int) (err error) {
-	now := time.Now().UnixNano()
-	last := atomic.LoadInt64(&l.next)
-	if verifhook.On {
-		verifhook.Gate("limiter.rateLoaded", l)
+	var now, last int64
+	for {
+		now = time.Now().UnixNano()
+		last = atomic.LoadInt64(&l.next)
+		if verifhook.On {
+			verifhook.Gate("limiter.rateLoaded", l)
+		}
+		permits := float64(now-last)/l.interval - float64(tokens)
+		if permits > l.maxPermits {
+			permits = l.maxPermits
+		}
+		// concurrent callers must not compute from the same value of next:
+		// every admitted request has to be charged.
+		if atomic.CompareAndSwapInt64(&l.next, last, now-int64(permits*l.interval)) {
+			break
+		}
 	}
-	permits := float64(now-last)/l.interval - float64(tokens)
-	if permits > l.maxPermits {
-		permits = l.maxPermits
-	}
-	atomic.StoreInt64(&l.next, now-int64(permits*l.interval))
 	if last <= now {
 		return
 	}
